@@ -112,6 +112,17 @@ func c02BaseDoc(f string) ([]byte, string, error) {
 			Depth: 3, MediaAt: 2, ResAt: 0, Revs: 3, Numbering: "shuffled", Order: "reversed", Eol: "crlf", Count: "chain"}
 		b, err := pdfdoc.Build(l, [][]pdfdoc.Item{{{2, 1}, {3, 2}}, {{1, 3}}}, []pdfdoc.Item{{2, 11}}, []pdfdoc.Item{{3, 21}})
 		return b, ".pdf", err
+	case "pdf-png":
+		// PNG-predicted Flate streams everywhere, incl. the cross-reference streams (/DecodeParms in every stream dictionary)
+		l := pdfdoc.Layout{Doc: 1, XRef: "stream", ObjStm: "dictsflate", Filter: "flpng", Length: "direct", Size: "small", Split: 1,
+			Depth: 2, MediaAt: 1, ResAt: 1, Revs: 2, Numbering: "ascending", Order: "sorted", Eol: "lf", Count: "branches"}
+		b, err := pdfdoc.Build(l, [][]pdfdoc.Item{{{2, 1}, {3, 2}}, {{1, 3}}}, []pdfdoc.Item{{2, 11}}, []pdfdoc.Item{{3, 21}})
+		return b, ".pdf", err
+	case "pdf-tiff":
+		l := pdfdoc.Layout{Doc: 1, XRef: "table", ObjStm: "none", Filter: "fltiff", Length: "direct", Size: "small", Split: 2,
+			Depth: 2, MediaAt: 0, ResAt: 0, Revs: 1, Numbering: "ascending", Order: "sorted", Eol: "lf", Count: "branches"}
+		b, err := pdfdoc.Build(l, [][]pdfdoc.Item{{{2, 1}, {3, 2}}, {{1, 3}}}, []pdfdoc.Item{{2, 11}}, []pdfdoc.Item{{3, 21}})
+		return b, ".pdf", err
 	case "docx":
 		b, err := zipOf(docxMembers())
 		return b, ".docx", err
@@ -421,7 +432,81 @@ func applyText(b []byte, f rFault, k int) []byte {
 	return b
 }
 
+// "instream" faults: numeric fields that sit inside encoded streams - the "number offset" pairs of every
+// object-stream header and the fields of every cross-reference-stream row. The document is rebuilt by the
+// writer with that one field replaced (the rest of the file stays consistent), so these faults are applied
+// to the base document only, before any textual fault. Returns the damaged file and the number of sites.
+func instreamDoc(fmtName string, site int, param string) ([]byte, int, error) {
+	n := 0
+	pdfw.PayloadFault = func(kind string, num int, payload []byte, w [3]int) []byte {
+		switch kind {
+		case "objstm":
+			ms := reInt.FindAllIndex(payload, -1)
+			var out []byte
+			last := 0
+			for _, m := range ms {
+				if n == site {
+					out = append(append(out, payload[last:m[0]]...), []byte(param)...)
+					last = m[1]
+				}
+				n++
+			}
+			return append(out, payload[last:]...)
+		case "xref":
+			cols := w[0] + w[1] + w[2]
+			if cols == 0 {
+				return payload
+			}
+			for row := 0; (row+1)*cols <= len(payload); row++ {
+				off := row * cols
+				for fi := 0; fi < 3; fi++ {
+					if w[fi] > 0 {
+						if n == site {
+							fld := payload[off : off+w[fi]]
+							for j := range fld {
+								switch param {
+								case "0":
+									fld[j] = 0
+								case "-1":
+									fld[j] = 0xFF
+								case "2147483648":
+									fld[j] = 0
+									if j == 0 {
+										fld[j] = 0x80
+									}
+								default:
+									fld[j] = 0xFF
+									if j == 0 {
+										fld[j] = 0x7F
+									}
+								}
+							}
+						}
+						n++
+					}
+					off += w[fi]
+				}
+			}
+		}
+		return payload
+	}
+	defer func() { pdfw.PayloadFault = nil }()
+	b, _, err := c02BaseDoc(fmtName)
+	return b, n, err
+}
+
 func applyFault(fmtName string, b []byte, f rFault, k int) []byte {
+	if f.Kind == "instream" {
+		_, n, err := instreamDoc(fmtName, -1, "")
+		if err != nil || n == 0 {
+			return b
+		}
+		nb, _, err := instreamDoc(fmtName, pick(n, f.Site, k), f.Param)
+		if err != nil {
+			return b
+		}
+		return nb
+	}
 	switch {
 	case strings.HasPrefix(fmtName, "pdf"):
 		return applyPDF(b, f, k)
@@ -433,6 +518,10 @@ func applyFault(fmtName string, b []byte, f rFault, k int) []byte {
 
 // number of sites of a fault kind (for "all" iteration)
 func siteCount(fmtName string, b []byte, kind string) int {
+	if kind == "instream" {
+		_, n, _ := instreamDoc(fmtName, -1, "")
+		return n
+	}
 	if strings.HasPrefix(fmtName, "pdf") {
 		return len(pdfSites(b, kind))
 	}
@@ -569,49 +658,48 @@ func graphPDFs(g [][]int) (map[string][]byte, error) {
 		}
 	}
 	if single {
-		f2 := &pdfw.File{EOL: "lf"}
-		for i := 0; i < n; i++ {
-			r := pdfw.Revision{XRef: "table", Root: pdfw.Ref{Num: 1}}
-			if i == 0 {
-				r.Items = []pdfw.Item{{Num: 1, Val: pdfw.Dict{{"Type", pdfw.Name("Catalog")}, {"Pages", pdfw.Ref{Num: 2}}}},
-					{Num: 2, Val: pdfw.Dict{{"Type", pdfw.Name("Pages")}, {"Kids", pdfw.Arr{}}, {"Count", pdfw.Int(0)}}}}
-			} else {
-				r.Items = []pdfw.Item{{Num: 2 + i, Val: pdfw.Int(i)}}
-			}
-			f2.Revs = append(f2.Revs, r)
-		}
-		b2, lay, err := f2.Bytes()
-		if err != nil {
-			return nil, err
-		}
-		// rewrite the /Prev entries: the newest section (read first) is section n; map graph node i -> section n+1-i
-		// so that node 1 is the entry point; its /Prev goes to the section of its successor (or is removed)
-		secOf := func(node int) int { return n - node } // index into lay.XRefAt
-		s := string(b2)
-		for node := 1; node <= n; node++ {
-			sec := secOf(node)
-			// locate this section's trailer
-			start := int(lay.XRefAt[sec])
-			end := strings.Index(s[start:], "startxref") + start
-			tr := s[start:end]
-			tr2 := regexp.MustCompile(` /Prev [0-9]+`).ReplaceAllString(tr, "")
-			if len(g[node-1]) == 1 {
-				pad := fmt.Sprintf(" /Prev %d", lay.XRefAt[secOf(g[node-1][0])])
-				tr2 = strings.Replace(tr2, " >>", pad+" >>", 1)
-			}
-			// keep offsets stable: pad or trim with spaces before "startxref"
-			for len(tr2) < len(tr) {
-				tr2 += " "
-			}
-			if len(tr2) > len(tr) {
-				// later sections shift: acceptable only for the last section in the file (the newest)
-				if sec != n-1 {
-					continue
+		// every spelling of an integer offset the syntax allows, and the real-number spelling it does not:
+		// all 10 bytes wide, so retargeting an entry never moves an offset
+		for _, sp := range [][2]string{{"prev", "%010d"}, {"prev-signed", "+%09d"}, {"prev-real", "%08d.0"}, {"prev-realdot", "%09d."}} {
+			f2 := &pdfw.File{EOL: "lf", PrevFormat: sp[1]}
+			for i := 0; i < n; i++ {
+				r := pdfw.Revision{XRef: "table", Root: pdfw.Ref{Num: 1}}
+				if i == 0 {
+					r.Items = []pdfw.Item{{Num: 1, Val: pdfw.Dict{{"Type", pdfw.Name("Catalog")}, {"Pages", pdfw.Ref{Num: 2}}}},
+						{Num: 2, Val: pdfw.Dict{{"Type", pdfw.Name("Pages")}, {"Kids", pdfw.Arr{}}, {"Count", pdfw.Int(0)}}}}
+				} else {
+					r.Items = []pdfw.Item{{Num: 2 + i, Val: pdfw.Int(i)}}
 				}
+				f2.Revs = append(f2.Revs, r)
 			}
-			s = s[:start] + tr2 + s[end:]
+			b2, lay, err := f2.Bytes()
+			if err != nil {
+				return nil, err
+			}
+			// the newest section (read first) is section n; graph node i -> section n+1-i, so that node 1 is the
+			// entry point; its /Prev goes to the section of its successor, or is blanked
+			secOf := func(node int) int { return n - node } // index into lay.XRefAt
+			s := string(b2)
+			rePrev := regexp.MustCompile(` /Prev [+0-9.]{10}`)
+			for node := 1; node <= n; node++ {
+				start := int(lay.XRefAt[secOf(node)])
+				end := strings.Index(s[start:], "startxref") + start
+				tr := s[start:end]
+				loc := rePrev.FindStringIndex(tr)
+				if loc == nil {
+					return nil, fmt.Errorf("graph writer: no /Prev placeholder in section %d", secOf(node))
+				}
+				repl := strings.Repeat(" ", loc[1]-loc[0])
+				if len(g[node-1]) == 1 {
+					repl = " /Prev " + fmt.Sprintf(sp[1], lay.XRefAt[secOf(g[node-1][0])])
+				}
+				if len(repl) != loc[1]-loc[0] {
+					return nil, fmt.Errorf("graph writer: /Prev spelling changes width")
+				}
+				s = s[:start] + tr[:loc[0]] + repl + tr[loc[1]:] + s[end:]
+			}
+			out[sp[0]] = []byte(s)
 		}
-		out["prev"] = []byte(s)
 	}
 	return out, nil
 }
@@ -765,8 +853,15 @@ func c02RunCase(idx int, c *rCase, announce func(sub int)) caseResult {
 			if c.All {
 				k = 0
 			}
+			for _, f := range fs { // faults inside encoded streams rebuild the document: they go first
+				if f.Kind == "instream" {
+					b = applyFault(c.Fmt, b, f, k)
+				}
+			}
 			for _, f := range fs {
-				b = applyFault(c.Fmt, b, f, k)
+				if f.Kind != "instream" {
+					b = applyFault(c.Fmt, b, f, k)
+				}
 			}
 			if !bytes.Equal(b, base) {
 				res.Faulty = true
